@@ -124,7 +124,7 @@ impl Property for C01 {
         if distinct.len() > 1 { return Outcome::fail("output differs between two processes for the same input", json!({"transcripts": distinct})) }
         Outcome::pass()
     }
-    fn post(&self, _tier: Tier, _seed: u64, results: &[Value]) -> Vec<(String, Value, Value)> {
+    fn post(&self, _tier: Tier, _seed: u64, results: &[Value], _extra: &mut std::collections::BTreeMap<String, Value>) -> Vec<(String, Value, Value)> {
         // compare the transcripts of all processes line by line
         let mut files: Vec<String> = results.iter().filter_map(|r| r["extra"]["transcript"].as_str().map(|s| s.to_string())).collect();
         files.sort();
